@@ -339,7 +339,8 @@ pub fn run_histories_ext(run: &mut Run, args: &Args, prop_salt: u64, histories: 
                             let d = w.prev[r].diff(&w.dumps[r]);
                             f.push((format!("{}/rejected-request-left-a-change", hooks.verify_sig.unwrap_or("c04").split('/').next().unwrap_or("c04")), format!("{:?}", d.iter().take(3).collect::<Vec<_>>())));
                         }
-                        let at = format!("after-{}", rec.op.kind());
+                        // what replication delivers is judged where it lands: one context for it
+                        let at = if matches!(rec.op, Op::Repl { .. } | Op::Refresh { .. }) { "replicated".to_string() } else { format!("after-{}", rec.op.kind()) };
                         if report(&mut acc, &w, f, &at, &seed_info) {
                             bad = true;
                             break;
@@ -425,7 +426,7 @@ pub fn run_histories_ext(run: &mut Run, args: &Args, prop_salt: u64, histories: 
                                 }
                             }
                         }
-                        report(&mut acc, &w, f, if nrep > 1 { "at-end-replicated" } else { "at-end-single" }, &seed_info);
+                        report(&mut acc, &w, f, if nrep > 1 { "replicated" } else { "at-end-single" }, &seed_info);
                     }
                     acc.eval();
                     if (hooks.nontrivial)(&w) {
